@@ -126,6 +126,69 @@ def regime_of(case: dict, cid: int | None = None) -> str | None:
 
 
 # ---- generator ---------------------------------------------------------------------------------------------------
+TS_MODES = ["increasing", "repeat", "backwards", "far", "shared", "constant", "mixed"]
+TS_WEIGHTS = [30, 18, 12, 8, 10, 6, 16]
+DAY_US = 86_400_000_000
+
+
+def next_ts(rng: random.Random, mode: str, k: int, prev: int | None) -> int:
+    """Timestamp (µs) of the k-th message of a component whose previous message carried `prev`.
+
+    increasing: as a well-behaved component (strictly increasing, ~1 s apart);   repeat: equal to the previous one
+    half of the time;   backwards: earlier than the previous one half of the time (by 1 µs … 1 h);   far: jumps of
+    1 µs … 400 days in either direction, the epoch itself, a time before the epoch;   shared: a function of k only, so
+    the k-th messages of all components coincide;   constant: one timestamp for every message;   mixed: any of these
+    per message."""
+    base = T0_US + k * 1_000_000 + (k * 137) % 1000
+    if mode == "mixed":
+        mode = rng.choice(TS_MODES[:-1])
+    if mode == "shared":
+        return T0_US + k * 1_000_000
+    if mode == "constant":
+        return T0_US + 1_000_000
+    if prev is None or mode == "increasing":
+        return base
+    if mode == "repeat":
+        return prev if rng.random() < 0.5 else max(base, prev + 1)
+    if mode == "backwards":
+        if rng.random() < 0.5:
+            return prev - rng.choice([1, 999, 1_000_000, 3_600_000_000])
+        return prev + rng.choice([1, 1_000_000])
+    if mode == "far":
+        return rng.choice([prev + 1, prev + DAY_US, prev + 400 * DAY_US, prev - 400 * DAY_US, prev - DAY_US,
+                           0, -1_000_001, T0_US + 20 * 365 * DAY_US])
+    raise ValueError(mode)
+
+
+def message_tags(case: dict) -> set[str]:
+    """Evidence tags about the content of the streamed messages (from the input only)."""
+    tags: set[str] = set()
+    per: dict[int, list[dict]] = {}
+    for a in case["actions"]:
+        if a["a"] == "msg":
+            per.setdefault(a["cid"], []).append(a)
+    for ms in per.values():
+        for x, y in zip(ms, ms[1:]):
+            if y["ts"] == x["ts"]:
+                tags.add("ts-repeated")
+            if y["ts"] < x["ts"]:
+                tags.add("ts-backwards")
+            if abs(y["ts"] - x["ts"]) >= DAY_US:
+                tags.add("ts-far-apart")
+            if y["fields"] == x["fields"]:
+                tags.add("values-repeated")
+                if y["ts"] == x["ts"]:
+                    tags.add("identical-consecutive-messages")
+        if any(m["ts"] <= 0 for m in ms):
+            tags.add("ts-at-or-before-epoch")
+    seen: dict[int, int] = {}
+    for cid, ms in per.items():
+        for m in ms:
+            if seen.setdefault(m["ts"], cid) != cid:
+                tags.add("ts-shared-across-components")
+    return tags
+
+
 def gen_fields(rng: random.Random, cat: str, k: int) -> list:
     """All numeric attributes of the category, pairwise distinct exact values (integers and halves), rarely NaN."""
     out = []
@@ -157,13 +220,27 @@ def gen_case(rng: random.Random, size: int, allow_unsupported: bool = True) -> d
     seq = {c: 0 for c in data_cids}
     requested: list[dict] = []
     namespaces = ["a", "b", "c"]
+    # The property says nothing about the CONTENT of a message: timestamps may repeat, go backwards, jump, coincide
+    # across components, and a message may be byte-identical to its predecessor — each is still owed exactly once.
+    ts_rng = random.Random(rng.getrandbits(64))      # separate stream: the script shapes stay those of the seed
+    ts_mode = ts_rng.choices(TS_MODES, weights=TS_WEIGHTS)[0]
+    clone_p = ts_rng.choice([0.0, 0.0, 0.15, 0.4])   # P(values of a message = values of its predecessor)
+    last_ts: dict[int, int] = {}
+    last_fields: dict[int, list] = {}
 
     def msg(cid: int) -> None:
         seq[cid] += 1
         k = seq[cid]
         cat = category_of(case, cid)
-        acts.append({"a": "msg", "cid": cid, "ts": T0_US + k * 1_000_000 + (k * 137) % 1000,
-                     "fields": gen_fields(rng, cat, k)})
+        ts = next_ts(ts_rng, ts_mode, k, last_ts.get(cid))
+        if cid in last_fields and ts_rng.random() < clone_p:
+            fields = [[a, list(vs)] for a, vs in last_fields[cid]]
+            if ts_rng.random() < 0.5:
+                ts = last_ts[cid]                    # the whole message is a copy of the previous one
+        else:
+            fields = gen_fields(rng, cat, k)
+        last_ts[cid], last_fields[cid] = ts, fields
+        acts.append({"a": "msg", "cid": cid, "ts": ts, "fields": fields})
 
     def req(kind: str | None = None) -> None:
         kind = kind or rng.choices(["new", "dup", "unknown", "unsupported", "nodata", "start"],
@@ -244,22 +321,36 @@ def exhaustive_cases(max_len: int) -> list[dict]:
     out = []
     rng = random.Random(0)
 
-    def build(seq: tuple) -> dict:
+    def build(seq: tuple, variant: str = "increasing") -> dict:
         acts: list[dict] = [{"a": "req", **base}]
         k = 0
+        first = None
         for kind, arg in seq:
             if kind == "req":
                 acts.append({"a": "req", **arg})
             elif kind == "msg":
                 k += 1
-                acts.append({"a": "msg", "cid": 4, "ts": T0_US + k * 1_000_000, "fields": gen_fields(rng, "METER", k)})
+                if variant == "increasing":
+                    m = {"a": "msg", "cid": 4, "ts": T0_US + k * 1_000_000, "fields": gen_fields(rng, "METER", k)}
+                elif variant == "same-ts":      # one timestamp, different values
+                    m = {"a": "msg", "cid": 4, "ts": T0_US + 1_000_000, "fields": gen_fields(rng, "METER", k)}
+                elif variant == "decreasing":
+                    m = {"a": "msg", "cid": 4, "ts": T0_US - k * 1_000_000, "fields": gen_fields(rng, "METER", k)}
+                else:                           # "identical": every message is a copy of the first
+                    first = first or {"a": "msg", "cid": 4, "ts": T0_US + 1_000_000,
+                                      "fields": gen_fields(rng, "METER", 1)}
+                    m = {**first, "fields": [[a, list(vs)] for a, vs in first["fields"]]}
+                acts.append(m)
             else:
                 acts.append({"a": "yield", "n": arg})
         return {"mode": "direct", "yield_api": False, "components": [[4, "METER"]], "actions": acts}
 
     def rec(prefix: tuple, depth: int) -> None:
-        if prefix and any(k == "msg" for k, _ in prefix):
+        n_msg = sum(1 for k, _ in prefix if k == "msg")
+        if n_msg:
             out.append(build(prefix))
+        if n_msg >= 2:   # the same script with repeated / decreasing timestamps and with identical messages
+            out.append(build(prefix, ("same-ts", "decreasing", "identical")[len(out) % 3]))
         if depth == 0:
             return
         for sym in alphabet:
